@@ -65,8 +65,9 @@ public:
   {
     if(&other == this)
       return *this;
+    MultiMap copy(other); // other may be owned by one of the elements that clear() destroys
     clear();
-    for(const Item* i = other._begin.item, * end = &other.endItem; i != end; i = i->next)
+    for(const Item* i = copy._begin.item, * end = &copy.endItem; i != end; i = i->next)
       insert(i->key, i->value);
     return *this;
   }
